@@ -42,7 +42,7 @@ Definition xsl (l : list (nat * fid)) := map (fun sg => (fst sg, rho (snd sg))) 
 Definition xst (s : st) : st :=
   {| now := (now s + D)%N; runq := xl (runq s); sleepm := xsm (sleepm s); waitq := xwq (waitq s);
      locked := locked s; fibers := xfl (fibers s); slots := xsl (slots s); cur := option_map rho (cur s);
-     rc := rc s; inj := inj s; nsp := nsp s + dn; crashed := crashed s |}.
+     rc := rc s; inj := inj s; nsp := nsp s + dn; crashed := crashed s; epoch := (epoch s + D)%N |}.
 
 Definition xobs (o : obs) : obs :=
   match o with
@@ -298,6 +298,9 @@ Ltac xupd := match goal with
   | |- context [xst (updf ?f ?u ?s)] => rewrite (updf_x f u u s) by reflexivity
   end.
 
+Lemma tbase_x : forall ab s, tbase ab (xst s) = (tbase ab s + D)%N.
+Proof. intros [] s; reflexivity. Qed.
+
 Lemma do_action_x : forall f r a rest s,
   do_action cf draws alloc2 (rho f) (xfiber r) a rest (xst s) = xres (do_action cf draws alloc1 f r a rest s).
 Proof.
@@ -317,11 +320,12 @@ Proof.
   - (* AYield *)
     unfold xres; cbn [fst snd map]. rewrite suspend_x. f_equal. f_equal.
     unfold xst, set_runq; cbn. rewrite xl_app. reflexivity.
+  - (* AEpoch *) reflexivity.
   - (* ASleep *)
-    cbn [now xst]. rewrite <- N.add_assoc, (N.add_comm D d), N.add_assoc, leb_shift.
-    destruct (now s + d <=? now s)%N; [reflexivity|].
+    rewrite tbase_x. cbn [now xst]. replace (tbase ab s + D + d)%N with (tbase ab s + d + D)%N by lia. rewrite leb_shift.
+    destruct (tbase ab s + d <=? now s)%N; [reflexivity|].
     unfold xres; cbn [fst snd map]. rewrite suspend_x. f_equal. f_equal.
-    rewrite (updf_x f (fun r' => with_pend r' (PSleep (now s + d))) (fun r' => with_pend r' (PSleep (now s + d + D)))) by reflexivity.
+    rewrite (updf_x f (fun r' => with_pend r' (PSleep (tbase ab s + d))) (fun r' => with_pend r' (PSleep (tbase ab s + d + D)))) by reflexivity.
     f_equal. unfold xst, set_sleepm; cbn. rewrite sm_push_x. reflexivity.
   - (* APark *)
     unfold xres; cbn [fst snd map]. rewrite suspend_x, set_wq_x, xl_app, wq_x. reflexivity.
@@ -330,16 +334,16 @@ Proof.
     set (s1 := set_wq q (wq q pop ++ [f]) pop).
     assert (Hs1 : set_wq q (wq q (xst pop) ++ [rho f]) (xst pop) = xst s1).
     { unfold s1. rewrite set_wq_x, xl_app, wq_x. reflexivity. }
-    rewrite Hs1. unfold draw. cbn [rc now xst].
+    rewrite Hs1. unfold draw. rewrite tbase_x. cbn [rc now xst].
     set (v := (draws (rc s1) mod slpt cf)%N).
-    replace (now s + D + d + v)%N with (now s + d + v + D)%N by lia.
+    replace (tbase ab s + D + d + v)%N with (tbase ab s + d + v + D)%N by lia.
     rewrite leb_shift.
     change (set_rc (xst s1) (S (rc s1))) with (xst (set_rc s1 (S (rc s1)))).
     set (s2 := set_rc s1 (S (rc s1))).
-    rewrite <- (updf_x f (fun r' => with_pend r' (PTimed q (now s + d + v)))
-                         (fun r' => with_pend r' (PTimed q (now s + d + v + D))) s2) by reflexivity.
-    set (s3 := updf f (fun r' => with_pend r' (PTimed q (now s + d + v))) s2).
-    destruct (now s + d + v <=? now s)%N; unfold xres; cbn [fst snd].
+    rewrite <- (updf_x f (fun r' => with_pend r' (PTimed q (tbase ab s + d + v)))
+                         (fun r' => with_pend r' (PTimed q (tbase ab s + d + v + D))) s2) by reflexivity.
+    set (s3 := updf f (fun r' => with_pend r' (PTimed q (tbase ab s + d + v))) s2).
+    destruct (tbase ab s + d + v <=? now s)%N; unfold xres; cbn [fst snd].
     + reflexivity.
     + rewrite suspend_x. f_equal. f_equal.
       unfold xst, set_sleepm; cbn. rewrite sm_push_x. reflexivity.
@@ -490,7 +494,7 @@ Definition ren_st (rho : fid -> fid) (s : st) : st :=
      locked := locked s;
      fibers := map (fun fr => (rho (fst fr), ren_fiber rho (snd fr))) (fibers s);
      slots := map (fun sg => (fst sg, rho (snd sg))) (slots s);
-     cur := option_map rho (cur s); rc := rc s; inj := inj s; nsp := nsp s; crashed := crashed s |}.
+     cur := option_map rho (cur s); rc := rc s; inj := inj s; nsp := nsp s; crashed := crashed s; epoch := epoch s |}.
 Definition ren_obs (rho : fid -> fid) (o : obs) : obs :=
   match o with
   | OResume f t => OResume (rho f) t
@@ -514,7 +518,8 @@ Definition shift_st (D : N) (s : st) : st :=
      sleepm := map (fun kb => ((fst kb + D)%N, snd kb)) (sleepm s);
      waitq := waitq s; locked := locked s;
      fibers := map (fun fr => (fst fr, shift_fiber D (snd fr))) (fibers s);
-     slots := slots s; cur := cur s; rc := rc s; inj := inj s; nsp := nsp s; crashed := crashed s |}.
+     slots := slots s; cur := cur s; rc := rc s; inj := inj s; nsp := nsp s; crashed := crashed s;
+     epoch := (epoch s + D)%N |}.
 Definition shift_obs (D : N) (o : obs) : obs :=
   match o with
   | OResume f t => OResume f (t + D)
@@ -526,7 +531,7 @@ Proof. intros A f l H. induction l as [|a l IH]; simpl; auto. rewrite H, IH. aut
 
 Lemma xst_ren : forall rho s, xst rho 0 0 s = ren_st rho s.
 Proof.
-  intros rho s. unfold xst, ren_st. rewrite N.add_0_r, Nat.add_0_r. f_equal.
+  intros rho s. unfold xst, ren_st. rewrite !N.add_0_r, Nat.add_0_r. f_equal.
   - unfold xsm. apply map_ext. intros [k b]. simpl. rewrite N.add_0_r. reflexivity.
   - unfold xfl. apply map_ext. intros [f r]. simpl. f_equal. unfold xfiber, ren_fiber. f_equal.
     destruct (pend r); simpl; rewrite ?N.add_0_r; reflexivity.
@@ -588,9 +593,10 @@ Theorem checkpoint : forall rho, injective rho -> forall D dn cf draws alloc1 al
   quiescent_at s1 d1 r1 -> quiescent_at s2 (rho d1) r2 ->
   prog r2 = prog r1 -> lastcas r2 = lastcas r1 -> lastto r2 = lastto r1 ->
   rc s2 = rc s1 -> inj s2 = inj s1 -> now s2 = (now s1 + D)%N -> nsp s2 = nsp s1 + dn ->
+  epoch s2 = (epoch s1 + D)%N ->
   forall fuel, run cf draws alloc2 fuel s2 = map (xobs rho D) (run cf draws alloc1 fuel s1).
 Proof.
-  intros rho Hinj D dn cf draws alloc1 alloc2 Hal s1 s2 d1 r1 r2 Q1 Q2 Hp Hc Ht Hrc Hinj' Hnow Hnsp fuel.
+  intros rho Hinj D dn cf draws alloc1 alloc2 Hal s1 s2 d1 r1 r2 Q1 Q2 Hp Hc Ht Hrc Hinj' Hnow Hnsp Hep fuel.
   rewrite <- (@run_x rho Hinj D dn cf draws alloc1 alloc2 Hal).
   f_equal.
   destruct Q1 as (C1 & R1 & S1 & W1 & L1 & T1 & F1 & X1 & A1 & B1 & J1 & P1).
@@ -685,7 +691,8 @@ Proof.
       * right. auto.
   - apply dspec_nodraw; simpl; auto. repeat constructor.
   - apply dspec_nodraw; simpl; auto.
-  - destruct (now s + d <=? now s)%N; apply dspec_nodraw; simpl; auto.
+  - apply dspec_nodraw; simpl; auto.
+  - destruct (tbase ab s + d <=? now s)%N; apply dspec_nodraw; simpl; auto.
   - apply dspec_nodraw; simpl; auto.
   - unfold draw. destruct (_ <=? now s)%N; (split; simpl; [repeat constructor | right; auto]).
   - apply dspec_nodraw; simpl; auto. repeat constructor.
@@ -836,7 +843,7 @@ Proof.
   { intros a rest. destruct a; unfold do_action; try reflexivity.
     - unfold inject, draw. destruct (freq cf <=? inj _)%N; reflexivity.
     - destruct (casf cf =? 0)%N; reflexivity.
-    - destruct (now s + d <=? now s)%N; reflexivity.
+    - destruct (tbase ab s + d <=? now s)%N; reflexivity.
     - unfold draw. destruct (_ <=? now s)%N; reflexivity.
     - rewrite now_notify_one. reflexivity.
     - cbn [fst]. unfold notify_all. rewrite now_fold_sar. reflexivity.
